@@ -107,7 +107,7 @@ def evaluate(case):
     has_pipe = "pipe" in net and len(net.pipe) > 0
     contiguous = has_pipe and list(net.pipe.index) == list(range(len(net.pipe)))
     if has_pipe:
-        for nm in ("reynolds", "lambda", "v_mean_m_per_s"):
+        for nm in net.res_pipe.columns:
             v = net.res_pipe[nm].abs()
             stats["colmax_" + nm] = float(v.max()) if v.notnull().any() else 0.0
     # ---- pipes
@@ -165,7 +165,8 @@ def evaluate(case):
                 lag = 4e-9 / abs(m)
                 for name, key in (("reynolds", "reynolds"), ("lambda", "lam"), ("v_mean_m_per_s", "v_mean")):
                     mean = sum(s[key] for s in sts) / nsec
-                    if not _close(rep[name], mean, (2e-5 if (fl.is_gas and key == "v_mean") else 1e-7) + 2 * lag):
+                    if not _close(rep[name], mean, (2e-5 if (fl.is_gas and key == "v_mean") else 1e-7) + 2 * lag,
+                                  1e-15 * stats.get("colmax_" + name, 0.0)):
                         f.append(Finding("derived", "C02.derived.%s.multi_section_mean" % name,
                                          dict(detail, reported=rep[name], expected=mean)))
     # ---- valves and heat exchangers
